@@ -99,7 +99,8 @@ def c03():
         runs=[_sim_run("defect", 7200, 108000), _sim_run("conv", 2500, 60000), _sim_run("faults", 3072, 61440),
               _sim_run("reload", 400, 8000),
               dict(name="rollback-under-allocation-failure", bin="rtrsim", config="asan", mode="allocsync", args=["undo_only=1"],
-                   cases=T(1024, 16384), timeout=2400, chunks=32)],
+                   cases=T(1024, 16384), timeout=2400, chunks=32),
+              _sim_run("intr", 1280, 25600)],
         floors={"c03/exchanges_judged_success": T(50000, 500000), "c03/exchanges_judged_failure": T(5000, 50000),
                 "sim/other_source_checks": T(50000, 500000), "c18/sync/runs_with_injected_failure": T(900, 14000)},
         rule=(SIM_RULE_COMMON + "Oracle per exchange: snapshot B of the socket's records (both tables, by source) when the query "
@@ -111,7 +112,10 @@ def c03():
               "position) plus the state-trace hash of every scenario. rollback-under-allocation-failure: a small conversation whose incremental "
               "responses fail half way (withdrawal of an unknown record, duplicate announcement) is run once per allocation request k with "
               "the k-th request failing (counting allocator installed through lrtr_set_alloc_functions) - taking back a withdrawal "
-              "allocates, so the rollback itself is made to fail at every one of its steps; same oracle."),
+              "allocates, so the rollback itself is made to fail at every one of its steps; same oracle. intr: a receive call returns "
+              "TR_INTR after exactly k delivered bytes of the first response, for every k in 1..640; all records are announced, among them "
+              "two whose IPv6 Prefix PDU carries, 12 bytes in, the image of a complete IPv4 Prefix PDU - a client that loses its place in "
+              "the stream finds a well-formed PDU there; same oracle."),
         assumptions=SIM_ASSUME,
     )
 
@@ -619,7 +623,9 @@ def c04():
     return dict(
         id="C04", level="exploration", engine="rtrsim", post=_c04_libfuzzer, post_on_replay=False,
         builds=[_sim_build()],
-        runs=[_sim_run("fuzz", 18000, 250000), _sim_run("defect", 3600, 54000), _sim_run("faults", 2048, 40960), _sim_run("conv", 1000, 20000)],
+        runs=[_sim_run("fuzz", 18000, 250000), _sim_run("defect", 3600, 54000), _sim_run("faults", 2048, 40960), _sim_run("conv", 1000, 20000),
+              dict(name="intr", bin="rtrsim", config="asan", mode="intr", cases=T(1280, 25600), timeout=1500, chunks=32,
+                   remap_props={"C03:": "C04"})],
         floors={"c04/streams_x_chunkings": T(70000, 950000), "c04/post_exchange_probes": T(17000, 240000), "sim/response/defective": T(10000, 200000),
                 "sim/response/truncated": T(2000, 40000), "libfuzzer/executions": T(15000, 1500000)},
         rule=(SIM_RULE_COMMON + "fuzz: a structure-aware generator builds a well-formed answer (Cache Response, up to 24 prefix / router-key "
@@ -640,7 +646,10 @@ def c04():
               "on); input = one control byte (where the stream arrives, interval mode, cache version, close afterwards, second read "
               "segmentation) + the stream; seed corpus = 96 streams of the structure-aware generator per process; scenario seed constant so "
               "that session and serial can be learnt; each execution runs the stream under maximal reads and one other segmentation and "
-              "compares outcomes; a C04 monitor verdict traps like a sanitizer report."),
+              "compares outcomes; a C04 monitor verdict traps like a sanitizer report. intr: a receive call returns TR_INTR after exactly "
+              "k delivered bytes of the first response, for every k in 1..640 (all records announced, among them two whose IPv6 Prefix "
+              "PDU carries the image of an IPv4 Prefix PDU 12 bytes in); wherever the client is torn out of the stream, nothing that was "
+              "not sent as a PDU may be applied: the per-exchange oracle of C03 decides, its verdicts count for C04 in this run."),
         assumptions=SIM_ASSUME + ["coverage-guided stage: monitors of sibling properties stay diagnostic there, as in the generator-driven fuzz mode"],
     )
 
